@@ -2,6 +2,7 @@
 import json, os
 from automata import DFA, regex_dfa, show, RegexError
 from rustexpr import Interp, Undecided
+from foldinterp import fold_validator
 from framework import Check
 
 SPEC = 'autosar-data-specification/src/'
@@ -139,7 +140,13 @@ def total_validators(facts_dir):
                     out.add(name)
                 continue
             except Undecided:
-                T, F = interp.function(name)
+                try:
+                    T, info = fold_validator(name, fns, rxfile['statics'])
+                    if not info['problems']:
+                        out.add(name)
+                    continue
+                except Undecided:
+                    T, F = interp.function(name)
             if T.union(F).complement().is_empty():
                 out.add(name)
         except Undecided:
@@ -150,7 +157,7 @@ def total_validators(facts_dir):
 def run(ctx):
     C = Check('C19', ctx['tier'], 'proof', ctx['seed'])
     C.trusted_base = ['syn 2 parser + asd-syn extractor', 'regex->NFA->DFA construction and product/complement in rules/automata.py',
-                      'shape recognisers / abstract interpreter in rules/rustexpr.py (fail closed on any construct outside the fragment)']
+                      'shape recognisers / abstract interpreter in rules/rustexpr.py, configuration exploration in rules/foldinterp.py (fail closed on any construct outside the fragment)']
     C.rule('C19-DATA-lang', 'for each Pattern{check_fn, regex} literal in CHARACTER_DATA: L(check_fn) = L(^regex$) over all byte strings, and check_fn never panics; a mismatch carries a shortest distinguishing string')
     syn = load_syn(ctx)
     pats = pattern_specs(syn)
@@ -189,10 +196,27 @@ def run(ctx):
                 kind = 'table'
                 for pr in info['problems']:
                     C.fail('C19-DATA-lang', '%s|table-wellformed|%s' % (name, pr.split(' = ')[0]), pr, fwhere)
+                if not info['problems']:
+                    # two independent readings of the same function must agree: the shape recogniser (table read off the literal) and
+                    # the configuration exploration of foldinterp.py
+                    try:
+                        T2, info2 = fold_validator(name, fns, rxfile['statics'])
+                        same, w2, _ = T.equiv(T2)
+                        C.check(same, 'C19-DATA-lang', '%s|engines-agree' % name, 'the table reading and the evaluated reading of %s differ on "%s" (checker inconsistency, fail closed)' % (name, show(w2) if w2 is not None else ''), fwhere)
+                    except Undecided:
+                        pass
             except Undecided as tu:
-                T, F = interp.function(name)
-                kind = 'handwritten'
-                info = {}
+                try:
+                    # any other shape that consumes the input with one loop / fold (helper function, try_fold, ...)
+                    T, info = fold_validator(name, fns, rxfile['statics'])
+                    F = T.complement()
+                    kind = 'fold'
+                    for pr in info['problems']:
+                        C.fail('C19-DATA-lang', '%s|panics' % name, pr, fwhere)
+                except Undecided as fu:
+                    T, F = interp.function(name)
+                    kind = 'handwritten'
+                    info = {}
         except Undecided as u:
             C.fail('C19-DATA-lang', '%s|undecided' % name, 'validator is outside the analysable fragment (%s); language equality not established' % u, fwhere)
             continue
